@@ -377,7 +377,8 @@ let next_life_labels t (k : string) : label list =
   | "release" -> [ERelease (nat_of_int (next_int t))]
   | "holdonclose" -> [EHoldOnClose (next_bool t)]
   | "accepterr" -> [EAcceptErr; EConnect]
-  | "sleep" -> let _ = next t in []
+  | "sleep" | "stoptimer" -> let _ = next t in []
+  | "stopwait" -> [ECallStop]
   | k -> failwith ("bad life op " ^ k)
 let next_life_op t : lop =
   match next t with
@@ -396,7 +397,7 @@ let cfg_of_string (s : string) : config =
          | "stop_interrupts" -> { c with stop_interrupts = b } | "ready_on_error" -> { c with ready_on_error = b }
          | "close_on_cancel" -> { c with close_on_cancel = b } | "unbind" -> { c with has_unbind_route = b }
          | "onclose" -> { c with has_onclose = b } | "accept_retry" -> { c with accept_retry = b } | "untrack_late" -> { c with untrack_late = b }
-         | "addr" | "tls" | "readtimeout" | "race" | "dflt" | "stopdelay" -> c     (* worker options, not model parameters *)
+         | "addr" | "tls" | "readtimeout" | "race" | "dflt" | "stopdelay" | "nopark" -> c     (* worker options, not model parameters *)
          | _ -> failwith ("bad cfg key " ^ k))
       | _ -> failwith "bad cfg kv") base (List.tl parts)
 let kind_char = function KNormal -> "n" | KStartTLS -> "t" | KUnbind -> "u"
